@@ -301,6 +301,8 @@ pub fn c09_shapes(thorough: bool, seed: u64) -> Vec<Shape> {
     ];
     if thorough {
         v.extend(crate::shapes::c01_shapes(true, seed).into_iter().filter(|s| !matches!(s.coef, Coef::Mixed(_))));
+        // every call sequence with <= 3 first-phase and <= 2 second-phase calls
+        v.extend(crate::shapes::exhaustive_skeletons(3, 2));
     }
     v
 }
